@@ -158,10 +158,12 @@ claim("C01",
       "Trace_Grid (TLC) decides on real geo2grid calls: zone rule (automatic and explicit), hemisphere label, false northing sign, "
       "E = false easting on the central meridian, N = 0 on the equator, mirror symmetry in the central meridian and the equator "
       "(0.4 mm), offsets scale with k0 and are independent of fe/fn, offsets scale with the semi-major axis at fixed 1/f, "
-      "angle-object / explicit-natural-zone / Projection-clone arguments give bit-identical results.",
-      "NOT decided: the 0.2 mm exactness off the central meridian and the absolute scale along it (needs the exact TM / meridian "
-      "arc: planned through MeridianArc.tla); the laws above are necessary conditions; a defect that keeps the map symmetric, "
-      "homogeneous and consistent with the inverse is invisible here. " + GRID_NOTE,
+      "angle-object / explicit-natural-zone / Projection-clone arguments give bit-identical results; and EXACTNESS on the central "
+      "meridian: at Pythagorean latitudes the northing equals false northing + k0 x the meridian distance computed inside the spec "
+      "(MeridianArc.tla: arctangent series + Helmert's series to n^5 in exact fixed point, remainder < 6e-9 m) within 0.2 mm for "
+      "shipped and random ellipsoids, utm / isg / random projections, both hemispheres.",
+      "NOT decided: the 0.2 mm exactness OFF the central meridian (needs the exact TM): there the symmetry / scaling laws are "
+      "necessary conditions and C02's closure against the independently typed inverse series is the other witness. " + GRID_NOTE,
       "TLA+ specification of zone/hemisphere rules model-checked exhaustively by TLC, TLC-enumerated strata sampled on the real code, TLC trace validation of relational laws",
       "DESIGN.md section 4 C01")
 claim("C02",
